@@ -213,19 +213,12 @@ def cdbdGuard (x : Input α) : Bool :=
 def validateCdbd (s : VState) (x : Input α) : VState × Except Reason (Arr α) :=
   if cdbdGuard x then (s, .error .univariate) else validateX .batch s x
 
-/-- the labels pandas gives the columns of a frame built from a bare array: `RangeIndex(0..w-1)` -/
-def rangeNames (w : Nat) : List String := (List.range w).map toString
-
 /-- HDDDM / CDBD with `detect_batch = 1`: `set_reference` ends with `reset()`, which feeds the second half of
-    the stored reference — a DataFrame built with `columns=_input_cols` — back through `update`.  Its
-    validation records that frame's labels when no names were known (`0..w-1` for an array reference),
-    and rejects the proxy when it has fewer than two rows (a 2-row reference). -/
+    the stored reference back through `update` — as a bare ARRAY (fix 65ffa2d: `test_proxy.to_numpy()`), so
+    its validation records no names and, the width being the recorded one, leaves the state as it is.  It
+    still rejects the proxy when it has fewer than two rows (a 2-row reference). -/
 def hdmProxy (s : VState) (refRows : Nat) : VState × Except Reason Unit :=
-  if refRows - refRows / 2 ≤ 1 then (s, .error .rows)
-  else
-    match s.cols, s.dim with
-    | none, some d => ({ s with cols := some (rangeNames d) }, .ok ())
-    | _, _ => (s, .ok ())
+  if refRows - refRows / 2 ≤ 1 then (s, .error .rows) else (s, .ok ())
 
 /-- `set_reference` of HDDDM (`guard = false`) / CDBD (`guard = true`) with `detect_batch = 1` -/
 def validateHdmRef (guard : Bool) (s : VState) (x : Input α) : VState × Except Reason (Arr α) :=
